@@ -82,7 +82,11 @@ class Universe:
                 "F": claripy.false(),
                 "x!=2": x != 2,
                 "z<u3": claripy.ULT(z, 3),
-                "x==2": x == 2,  # contradicts x==1: an unsatisfiable child that queries on other variables do not touch
+                "x==2": x == 2,
+                # x<u1 and x>u2 contradict each other without being syntactic negations: an unsatisfiable child that
+                # queries on other variables do not touch
+                "x<u1": claripy.ULT(x, 1),
+                "x>u2": claripy.UGT(x, 2),
             }
             self.E = {"x": x, "y": y, "z": z, "u": u, "x+y": x + y, "x+z": x + z, "y+u": y + u}  # noqa
             self.X = {"none": (), "x==2": (x == 2,), "z==y+1": (z == y + 1,), "u==3": (u == 3,)}
